@@ -179,6 +179,15 @@ func (en *Engine) checkProperty(id, tier, verif, workdir string, t0 time.Time) i
 	var scanFails []Failure
 	var scanNames []string
 	for _, s := range ps.Scans {
+		if s == "seq-no-driver-reentry" {
+			scanNames = append(scanNames, "scan."+s)
+			for _, e := range en.driverReentryEdges("seq") {
+				nm := "scan." + s + "[" + e + "]"
+				scanNames = append(scanNames, nm)
+				scanFails = append(scanFails, Failure{Name: nm, Base: nm, Verdict: "failed", Solver: "syntactic scan", Output: "continuation " + e + ": the driver closure is re-entered synchronously from a continuation it created; Go frames accumulate per iteration until the next yield", Kind: "scan"})
+			}
+			continue
+		}
 		ok, detail := en.runScan(s)
 		scanNames = append(scanNames, "scan."+s)
 		if !ok {
